@@ -44,10 +44,13 @@ inductive ImmEv
   | clean                            -- CleanEntry: keep the newest complete package only
   deriving Repr, DecidableEq, Inhabited
 
-def newest (fs : List File) : Option File :=
-  (fs.filter (!·.part)).foldl (fun acc f => match acc with
-    | none => some f
-    | some g => if g.mtime < f.mtime then some f else some g) none
+/-- keep the newer of the candidate so far and the next file -/
+def newer (acc : Option File) (f : File) : Option File :=
+  match acc with
+  | none => some f
+  | some g => if g.mtime < f.mtime then some f else some g
+
+def newest (fs : List File) : Option File := (fs.filter (!·.part)).foldl newer none
 
 def immStep (s : ImmState) : ImmEv → Option ImmState
   | .beginStore id v =>
